@@ -288,7 +288,7 @@ def _value(rng, typ, k, allow_missing_entries=True, small=False):
 
 
 def rich_file(rng, nrec=None, nsamples=None, ncontig=None, fields="all", gt=True, ploidies=(2,), max_alt=3,
-              small_ints=False, records_lack_gt=False):
+              small_ints=False, records_lack_gt=False, shuffle_contig_blocks=False):
     nrec = nrec if nrec is not None else rng.choice([1, 3, 8, 20, 60])
     nsamples = nsamples if nsamples is not None else rng.choice([0, 1, 2, 3, 6])
     ncontig = ncontig or rng.choice([1, 2, 3, 5])
@@ -387,5 +387,11 @@ def rich_file(rng, nrec=None, nsamples=None, ncontig=None, fields="all", gt=True
                                         small=small_ints)
                     rec["samples"].append(s)
             records.append(rec)
+    if shuffle_contig_blocks and ncontig > 1:
+        # a file may list its contig blocks in another order than the header (e.g. lexicographic vs karyotypic):
+        # tabix/CSI accept that; the converted store must still be in header contig order
+        order = list(range(ncontig))
+        rng.shuffle(order)
+        records = [r for ci in order for r in records if r["contig"] == ci]
     return {"contigs": contigs, "filters": filters, "infos": infos, "formats": formats,
             "samples": [f"s{j}" for j in range(nsamples)], "records": records}
